@@ -311,7 +311,7 @@ def op_xpath(op) -> str:
         if op[3] is None:
             return f'array:subarray({v(op[1])}, {op[2]})'
         return f'array:subarray({v(op[1])}, {op[2]}, {op[3]})'
-    if n in ('ahead', 'atail', 'areverse', 'ajoin', 'aflatten', 'asize'):
+    if n in ('ahead', 'atail', 'areverse', 'ajoin', 'aflatten', 'asize', 'asort'):
         return f'array:{n[1:]}({v(op[1])})'
     if n == 'afe':
         return f'array:for-each({v(op[1])}, {fn1_xpath(op[2])})'
@@ -381,7 +381,8 @@ def op_proto(op) -> str:
         return f'mremove,{var(op[1])},' + '+'.join(key_proto(k) for k in op[2])
     if n in ('mget', 'mcontains', 'mfind'):
         return f'{n},{var(op[1])},{key_proto(op[2])}'
-    if n in ('msize', 'mkeys', 'mforeach', 'acurly', 'ahead', 'atail', 'areverse', 'ajoin', 'aflatten', 'asize'):
+    if n in ('msize', 'mkeys', 'mforeach', 'acurly', 'ahead', 'atail', 'areverse', 'ajoin', 'aflatten', 'asize',
+             'asort'):
         return f'{n},{var(op[1])}'
     if n == 'mentry':
         return f'mentry,{key_proto(op[1])},{var(op[2])}'
@@ -536,7 +537,7 @@ def op_template(op):
     elif n == 'asub':
         e = f'array:subarray({P(op[1])}, {N(op[2])})' if op[3] is None else \
             f'array:subarray({P(op[1])}, {N(op[2])}, {N(op[3])})'
-    elif n in ('ahead', 'atail', 'areverse', 'ajoin', 'aflatten', 'asize'):
+    elif n in ('ahead', 'atail', 'areverse', 'ajoin', 'aflatten', 'asize', 'asort'):
         e = f'array:{n[1:]}({P(op[1])})'
     elif n == 'afe':
         f = op[2]
@@ -790,7 +791,7 @@ NUM_ONE = [('i', 1), ('d', '1.0'), ('f', '1'), ('d', '1')]
 KEY_POOLS = {
     'num': [('i', 0), ('i', 1), ('i', 2), ('i', -3), ('d', '1.0'), ('d', '0.1'), ('d', '2.50'), ('d', '0'),
             ('f', '1'), ('f', '0.1'), ('f', '2.5'), ('f', '-0.0'), ('f', '0'), ('f', '1e20'),
-            ('i', 100000000000000000000), ('f', '-3')],
+            ('i', 100000000000000000000), ('f', '-3'), ('i', 9007199254740993), ('f', '9007199254740992')],
     'special': [('f', 'NaN'), ('f', 'INF'), ('f', '-INF'), ('f', '-0.0')],
     'str': [('s', 'a'), ('s', 'b'), ('s', ''), ('s', 'ab'), ('u', 'a'), ('u', 'b'), ('u', ''), ('s', 'é'),
             ('s', '1'), ('s', 'true'), ('u', 'http://x/y'), ('a', 'a'), ('a', '1'), ('a', 'true'), ('a', ''),
@@ -944,6 +945,7 @@ class Gen:
         choices += ['deq', 'deq']
         if m is not None or a is not None:
             choices += ['call', 'call', 'call', 'call2']
+        choices += ['asort']
         c = rng.choice(choices)
         bad = rng.random() < 0.03        # ill-typed operand
         if c == 'mctor':
@@ -961,6 +963,8 @@ class Gen:
             return self.gen_deq()
         if c in ('call', 'call2'):
             return self.gen_call(c, m, a, val, bad)
+        if c == 'asort':
+            return self.gen_sort()
         if c == 'afe':
             f = rng.choice(['id', 'dup', 'cnt', ('c', self.key())])
             return self.add(('afe', aa, f), 'arr')
@@ -1076,6 +1080,27 @@ class Gen:
         y = len(self.ops) - 1
         return self.add(('deq', x, y) if rng.random() < 0.5 else ('deq', y, x), 'seq')
 
+    def gen_sort(self):
+        """array:sort on the modelled fragment: members are sequences of numbers, or of strings
+        (rarely mixed: XPTY0004); the array is built right before the sort"""
+        rng = self.rng
+        nums = [('i', 3), ('i', 1), ('i', 2), ('i', 0), ('i', -3), ('d', '1.5'), ('d', '1.0'), ('d', '0.1'), ('f', '2'),
+                ('f', '-0.0'), ('f', '0.1'), ('f', '1e20'), ('i', 100000000000000000000), ('d', '2.50'), ('f', '2.5')]
+        strs = [('s', 'a'), ('s', 'b'), ('s', ''), ('s', 'ab'), ('s', 'é'), ('s', 'B'), ('s', '1'), ('s', 'aa')]
+        r = rng.random()
+        pool = nums if r < 0.55 else strs if r < 0.93 else nums + strs
+        members = []
+        for _ in range(rng.choice([0, 1, 2, 3, 4, 5])):
+            # mixed numbers and strings only with one-item members: then some comparison must meet a
+            # number and a string whatever the sorting algorithm compares (deeper positions may stay unvisited)
+            k = rng.choice([1, 1, 1, 1, 0, 2, 3]) if r < 0.93 else rng.choice([1, 1, 1, 0])
+            self.add(('seq', [rng.choice(pool) for _ in range(k)]), 'seq')
+            members.append(len(self.ops) - 1)
+        if members and rng.random() < 0.3:
+            members.append(rng.choice(members))           # ties: stability
+        self.add(('asquare', members), 'arr')
+        return self.add(('asort', len(self.ops) - 1), 'arr')
+
     def gen_call(self, c, m, a, val, bad):
         """`$f(K)`: a map or an array called as a function with a COMPUTED argument (never a literal)"""
         rng = self.rng
@@ -1165,6 +1190,8 @@ def twist(rng, k, flavour):
     kind, p = k
     try:
         if kind == 'i':
+            if p == 9007199254740993:
+                return ('f', '9007199254740992')   # equal after promotion to double (deep-equal), not the same key
             return rng.choice([('d', f'{p}.0'), ('f', str(p)), ('d', str(p))])
         if kind == 'd':
             fr = Fraction(Decimal(p))
@@ -1262,7 +1289,9 @@ CORPUS = [
      ('mput', 1, ('q', ('v', 'a', '')), 0), ('mkeys', 5),
      ('mctor', [(('r', ('dayTimeDuration', 'PT0S')), 0), (('r', ('yearMonthDuration', 'P0M')), 0)]),
      ('mcontains', 1, ('y', 'AP8=')), ('mget', 1, ('y', 'AP8='))],
-    [('seq', [('i', 9007199254740993)]), ('seq', [('f', '9007199254740992')]), ('deq', 0, 1)],
+    [('seq', [('i', 9007199254740993)]), ('seq', [('f', '9007199254740992')]), ('deq', 0, 1), ('deq', 1, 0),
+     ('asquare', [0]), ('asquare', [1]), ('deq', 4, 5), ('deq', 5, 4), ('mctor', [(('i', 1), 0)]), ('mctor', [(('i', 1), 1)]),
+     ('deq', 9, 8)],
     # the two empty binaries share a dict slot (same text, same hash); non-empty ones do not
     [('seq', [('i', 1)]), ('mentry', ('x', ''), 0), ('mget', 1, ('y', '')), ('mentry', ('x', '61'), 0), ('mget', 3, ('y', 'YQ==')),
      ('mctor', [(('x', ''), 0), (('y', ''), 0)]), ('mctor', [(('x', '61'), 0), (('y', 'YQ=='), 0)])],
@@ -1276,6 +1305,12 @@ CORPUS = [
     [('seq', [('i', 1)]), ('seq', [('i', 2)]), ('mctor', [(('i', 1), 0)]), ('mctor', [(('d', '1.0'), 1)]), ('seq', [2, 3]),
      ('mmerge', 4, 'first'), ('mmerge', 4, 'last'), ('mmerge', 4, 'combine'), ('mmerge', 4, 'reject'), ('mmerge', 4, 'first'),
      ('mmerge', 4, 'default')],
+    # array:sort: numbers by value across types (ties keep their order), sequences lexicographically, strings, mixed
+    [('seq', [('i', 3)]), ('seq', [('d', '1.5')]), ('seq', [('f', '2')]), ('seq', [('f', '-0.0')]), ('seq', [('i', 0)]),
+     ('seq', [('i', 1), ('i', 2)]), ('seq', []), ('seq', [('d', '1.0')]), ('seq', [('i', 1)]),
+     ('asquare', [0, 1, 2, 3, 4, 5, 6, 7, 8]), ('asort', 9), ('seq', [('s', 'b')]), ('seq', [('s', 'a'), ('s', 'z')]),
+     ('seq', [('s', 'a')]), ('seq', [('s', '')]), ('asquare', [11, 12, 13, 14]), ('asort', 15), ('asquare', [0, 11]),
+     ('asort', 17), ('asquare', []), ('asort', 19), ('asort', 0)],
     # a map / an array called as a function with computed arguments; error cases
     [('seq', [('i', 1)]), ('seq', [('i', 2), ('i', 1)]), ('seq', []), ('mctor', [(('i', 1), 0), (('i', 2), 1)]), ('asquare', [0, 1]),
      ('call', 3, 1, 'pred', None), ('call', 3, 0, 'for', None), ('call', 3, 0, 'lookup', None), ('call', 3, 2, 'var', None),
@@ -1344,16 +1379,9 @@ def op_keys(op):
 
 
 def classify_tags(ops, k):
-    """finding ids whose trigger predicate holds for ops[0..k] (the driver computed the predicate itself:
-    noClash of the keys — always true since fix-c15-3 — and atomClash of the atoms of a deep-equal step)"""
-    tags = set()
-    lits = [a for op in ops[:k + 1] if op[0] == 'seq' for a in op[1] if not isinstance(a, int)]
-    lits += [kk for op in ops[:k + 1] for kk in op_keys(op)]
-    lits += [op[2][1] for op in ops[:k + 1] if op[0] == 'afe' and not isinstance(op[2], str)]
-    if any(op[0] == 'deq' for op in ops[:k + 1]) and any(kk[0] == 'i' and abs(kk[1]) > 2 ** 53 for kk in lits) \
-            and any(kk[0] == 'f' for kk in lits):
-        tags.add('F15m')
-    return sorted(tags)
+    """no finding with a trigger inside the model is left: the driver's flags (`noClash` of the keys,
+    `atomClash` of the atoms of a deep-equal step) are provably always 1 (keyClash_false, atomClash_false)"""
+    return []
 
 
 def compare(run: Run, cases, count=True, reuse_every: int = 2) -> None:
